@@ -12,7 +12,7 @@ BUDGET_S = {'quick': 90, 'thorough': 600}
 BOUNDS = {
     'quick': 'edges: arguments into subbuild/build_file callee; value returned by subbuild/build_file fresh and served from '
              'cache, at root level and inside a caching parent; list_dir and walk (top-down and bottom-up) results; one container object occurring several times '
-             'inside the arguments or the returned value; in-place mutations append / pop / '
+             'inside the arguments or the returned value; argument shapes [i, [j]] / {} / [] / {"k": [j], "e": {}}, edited by the callee and (a hole) by the caller after the call returned; in-place mutations append / pop / '
              'clear / nested set-item / nested append on a value [i, [j], {"k": [m]}] (for returned values also {"a": [j], "i": i, "k": {"n": [m]}}) with symbolic integer leaves; histories of '
              '3 builds (unchanged rebuilds) and B.B.M.B for query results (tree of in/, in/x, in/y symbolic)',
     'thorough': 'same edges with two nested levels and 4 builds',
@@ -26,6 +26,7 @@ EDGES = ['ret-sb', 'ret-bf', 'ret-sb-nested', 'ret-bf-nested', 'args-sb', 'args-
          'shared-args-sb', 'shared-args-bf', 'shared-ret-sb', 'shared-ret-bf',
          # the callee keeps a reference to the very object it returned and edits it after the call has returned
          'kept-ret-sb', 'kept-ret-bf']
+ARG_SHAPES = ['list', 'empty-dict', 'empty-list', 'dict']
 MUTS = ['append', 'pop', 'clear', 'nested-append', 'nested-setitem']
 
 
@@ -106,6 +107,17 @@ def harness(eng, fam, P):
             return {'a': [j], 'i': i, 'k': {'n': [m]}}
         return [i, [j], {'k': [m]}]
 
+    # args / kwargs edges: the shape of the argument (a nested list, or an empty / nested dict or an empty list) and whether the
+    # caller edits its own object after the call returned are holes
+    is_args = fam.startswith('args') or fam.startswith('kwargs')
+    arg_shape = ARG_SHAPES[eng.choose('arg_shape', len(ARG_SHAPES))] if is_args else 'list'
+    caller_edits = bool(eng.choose('caller_edits', 2)) if is_args else False
+    if is_args:
+        eng.path_info.update({'arg_shape': arg_shape, 'caller_edits_after_call': caller_edits})
+
+    def arg_value():
+        return {'list': lambda: [i, [j]], 'empty-dict': lambda: {}, 'empty-list': lambda: [], 'dict': lambda: {'k': [j], 'e': {}}}[arg_shape]()
+
     def twice():
         l = [i, [j]]
         return {'a': l, 'b': l, 'c': [l, l]}
@@ -182,14 +194,18 @@ def harness(eng, fam, P):
             do_mut(r, how, x)
             return 0
         if fam in ('args-sb', 'args-bf'):
-            a = [i, [j]]
+            a = arg_value()
             r = call_leaf(b, 'sb' if fam == 'args-sb' else 'bf', (a,))
             seen.append(copy.deepcopy(a))          # the caller's object is untouched
+            if caller_edits:
+                do_mut(a, how, x)                  # the caller goes on using (and editing) its own object after the call
             return 0
         if fam in ('kwargs-sb', 'kwargs-bf'):
-            a = [i, [j]]
+            a = arg_value()
             r = call_leaf(b, 'sb' if fam == 'kwargs-sb' else 'bf', (), {'opt': a})
             seen.append(copy.deepcopy(a))
+            if caller_edits:
+                do_mut(a, how, x)
             return 0
         if fam.startswith('kept-ret'):
             r = call_leaf(b, 'sb' if fam.endswith('sb') else 'bf')
@@ -252,7 +268,7 @@ def harness(eng, fam, P):
                               info={'calls': list(calls), 'build': k + 1})
                 eng.witness('shared-container')
             elif fam.startswith('args') or fam.startswith('kwargs'):
-                eng.check('C11.caller-argument-mutated', L.eq(seen[-1], [i, [j]]), sig)
+                eng.check('C11.caller-argument-mutated', L.eq(seen[-1], arg_value()), sig + (arg_shape,))
                 if k > 0:
                     eng.check('C11.reexecuted-without-change', not calls, sig + ('build%d' % (k + 1),),
                               info={'calls': list(calls), 'build': k + 1})
